@@ -3,6 +3,7 @@ package props
 import (
 	"encoding/json"
 	"fmt"
+	"github.com/nspcc-dev/neo-go/pkg/core/transaction"
 	"path/filepath"
 	"sort"
 	"strings"
@@ -345,6 +346,23 @@ func (e *c03Env) classes(r c03Row) []c03Class {
 	return nil
 }
 
+// watchNoFee is the watch list without the accounts that pay the fees of the scoped transaction.
+func (e *c03Env) watchNoFee(ss []chainkit.ScopedSigner) []util.Uint160 {
+	var out []util.Uint160
+	for _, a := range e.watch {
+		payer := false
+		for _, s := range ss {
+			if s.S.ScriptHash() == a {
+				payer = true
+			}
+		}
+		if !payer {
+			out = append(out, a)
+		}
+	}
+	return out
+}
+
 var fsContractEvents = true
 
 // inert checks that nothing changed and nothing was notified.
@@ -369,7 +387,7 @@ func TestC03Matrix(t *testing.T) {
 	theT = t
 	defer removeBumped()
 	col := ev.New("C03", "matrix",
-		"the method list is read from the manifests compiled from the working tree (11 contracts); for every non-safe method x committee size {1,3,4,7} (4: an even size, where half of the keys is not a majority) a fresh fully deployed and prepared world is built and every signer class of the method's documented requirement is tried in turn (nobody relevant, a single Alphabet member, the committee majority where the Alphabet is required and vice versa, the named key without the Alphabet, the Alphabet without the named key, ...): each deficient class must FAULT (or answer false) and leave the full snapshot of all contracts, GAS/NEO balances and notifications untouched, the exactly-required class must succeed; methods whose name starts with '_' must not be callable; every safe method is committed with plausible arguments and must leave the snapshot untouched; verify of Proxy/Alphabet/Processing is evaluated for every signer class; methods and classes are enumerated completely, arguments are one valid tuple per method here (groups arg-sweep and args vary them); a manifest method without a table row is reported as uncovered (not an alarm)",
+		"the method list is read from the manifests compiled from the working tree (11 contracts); for every non-safe method x committee size {1,3,4,7} (4: an even size, where half of the keys is not a majority) a fresh fully deployed and prepared world is built and every signer class of the method's documented requirement is tried in turn (nobody relevant, a single Alphabet member, the committee majority where the Alphabet is required and vice versa, the named key without the Alphabet, the Alphabet without the named key, ...): each deficient class must FAULT (or answer false) and leave the full snapshot of all contracts, GAS/NEO balances and notifications untouched, the exactly-required class must succeed; on committees of 1 and 4 keys additionally: the required signers present only as fee payers (witness scope None) while a stranger makes the call, in both signer orders - refused and inert; methods whose name starts with '_' must not be callable; every safe method is committed with plausible arguments and must leave the snapshot untouched; verify of Proxy/Alphabet/Processing is evaluated for every signer class; methods and classes are enumerated completely, arguments are one valid tuple per method here (groups arg-sweep and args vary them); a manifest method without a table row is reported as uncovered (not an alarm)",
 		"the witness requirement table is hand-written from the contracts' documentation")
 	defer func() { col.Flush(true) }()
 	nshards, shard := envInt("VERIF_NSHARDS", 1), envInt("VERIF_SHARD_INDEX", 0)
@@ -483,6 +501,60 @@ func TestC03Matrix(t *testing.T) {
 						fail("C03: %s carries exactly the required witnesses (%s) but did not succeed: %s", what, row.req, o)
 					}
 					h.Mark("succeeded")
+				}
+				// the required signers are on the transaction, but only to pay for it (witness scope None), and a
+				// stranger makes the call: their witnesses do not cover the contract - a deficient set like any other.
+				// (Run on a fresh world, because the allowed class above has already changed this one.)
+				if row.req != reqNone && row.req != reqCallback && (n == 1 || n == 4) {
+					e2 := newC03Env(n)
+					defer e2.c.Close()
+					e2.h["probe"] = e2.c.Deploy(chainkit.Probe("subscriber", "verif subscriber 0"), nil)
+					target2 := e2.h[u.contract]
+					if row.target != "" {
+						target2 = e2.h[row.target]
+					}
+					var allowed c03Class
+					for _, cl := range e2.classes(row) {
+						if cl.allowed {
+							allowed = cl
+							break
+						}
+					}
+					for _, order := range []string{"payers first", "stranger first"} {
+						var ss []chainkit.ScopedSigner
+						for _, sg := range allowed.signers {
+							e2.c.FundGAS(sg.ScriptHash(), 500*gasUnit)
+							ss = append(ss, chainkit.ScopedSigner{S: sg, Scope: transaction.None})
+						}
+						e2.c.FundGAS(e2.strng.ScriptHash(), 500*gasUnit)
+						st := chainkit.ScopedSigner{S: e2.strng, Scope: transaction.Global}
+						if order == "payers first" {
+							ss = append(ss, st)
+						} else {
+							ss = append([]chainkit.ScopedSigner{st}, ss...)
+						}
+						e2.seq++
+						args2 := row.args(e2)
+						e2.watch = append(e2.watch, allowed.signers[0].ScriptHash())
+						tx := e2.c.PrepareScoped(chainkit.Script(target2, u.m.Name, args2...), ss)
+						pre := e2.c.Snapshot(e2.watchNoFee(ss)...)
+						o := e2.c.InvokeBlock(0, tx)[0]
+						what := fmt.Sprintf("%s (n=%d) invoked by a stranger while %s only pay(s) the fees with witness scope None (%s)", key, n, allowed.name, order)
+						h.Op("%s -> %s", what, o)
+						refused := !o.Halt
+						if row.falsey && o.Halt {
+							if b, isb := o.Bool(); isb && !b {
+								refused = true
+							}
+						}
+						if !refused {
+							fail("C03: %s succeeded: %s", what, o)
+						}
+						if d := chainkit.Diff(pre, e2.c.Snapshot(e2.watchNoFee(ss)...)); len(d) != 0 {
+							fail("C03: %s changed state: %v", what, d)
+						}
+						h.Mark("refused-scope-none")
+					}
 				}
 			})
 			if !ok {
